@@ -151,6 +151,12 @@ def gen_traj(rng, ff_scale):
     alt = np.clip(alt + rng.uniform(-50, 50, size=n) * (rng.random() < 0.5), 0.0, 13500.0)
     tas = rng.uniform(100, 260, size=n)
     ff = rng.uniform(0.3, 6.0, size=n) * ff_scale
+    if rng.random() < 0.15:
+        # engines shut down at some points (the last one at the gate, or anywhere): zero fuel flow while the segment that ends
+        # there still burned fuel — the balances must hold there too
+        off = rng.random(size=n) < 0.2
+        off[-1] = True
+        ff = np.where(off, 0.0, ff)
     # climb/descent window class
     w = rng.random()
     if w < 0.12:
